@@ -7,6 +7,7 @@ OV == {<<"O1", 200000000, 1000000, 196000000, 800000>>,      \* spot above EMA, 
        <<"O1", 60000000, 0, 60000000, 0>>,                     \* a drop after which the account is healthy only thanks to the e-mode maintenance weight
        <<"O1", 200000000, 9000000, 200000000, 9000000>>,       \* 4.5 % confidence x 2.12 = 9.5 %: capped at 5 %
        <<"O1", 200000000, 12000000, 200000000, 1000000>>,      \* spot confidence beyond the maximum, EMA confidence fine
+       <<"O1", 50000000, 2250000, 62000000, 300000>>,          \* a drop; spot confidence at the 5 % cap (of the SPOT price), time-weighted price well above spot
        <<"O3", 100000000, 200000, 101000000, 300000>>,
        <<"O3", 104000000, 0, 100000000, 0>>}
 SV == {<<"O2", "50000000000000000000", "1500000000000000000">>,     \* 3 % std dev x 1.96 = 5.9 %: capped at 5 %
